@@ -56,6 +56,14 @@ ASSUMPTIONS = [
     'weighted model, non-negative weights for the interpolation model (its predict_rdm clips '
     'negative weights, predict does not), a valid index for the selection model; theta=None '
     'defaults are not compared (ModelInterpolate.predict() and predict_rdm() use different defaults)',
+    'every fitter / Model.fit / predict / predict_rdm call of every family is followed by a bit-level '
+    'comparison of its caller-owned arguments (model basis and pattern descriptors, training RDMs and '
+    'descriptors, sigma_k, pattern_idx, theta, the ndarray a model was built from): signature '
+    '<call>|...|modifies-argument:<arg>',
+    'scale family: closed-form fitters only (fit_regress, fit_regress_nn, fit_select, fit_interpolate); the '
+    'iterative optimisers fit_optimize* stop on absolute tolerances by design and miss the 1e-4 score '
+    'tolerance in 1 of 144 probed extreme-scale fits on the unchanged tree, so they are not run at '
+    'extreme scales; a closed-form fitter call running longer than 3 s is reported as does-not-terminate',
     'a 1-D sigma_k (variances) is accepted by compare() but documented for no fitter: fitters that '
     'accept it are judged, rejections are recorded in the evidence notes, not reported',
 ]
@@ -79,6 +87,10 @@ BOUNDS = {
               'nnls grid family': 'basis = every set of 3 (all 4960) / 4 (every 8th of 35960) distinct '
                                   'RDMs of 1-d point configurations of 4 conditions on grid {0,1,2} (32 RDMs), '
                                   'cosine; every 5th triple for corr and cosine_cov; brute-force optimum',
+              'scale family': 'closed-form fitters x 6 method/sigma_k x {None, one bootstrap vector} x every '
+                              'combination of data x {1e-8,1,1e6}, basis x {1e-8,1,1e6}, sigma_k x {1e-10,1,1e6} '
+                              '(n_cond=5, k=3, stack of 2); 672 fits',
+              'pattern descriptors': "'index', unsorted two-digit ints, six-digit ints 100000+j not ascending",
               'sequences on one model object': 'all ordered pairs of steps (fitter x 6 method/sigma_k + one '
                                                'step with a pattern selection), weighted / select / '
                                                'interpolate, model built from RDMs and from a plain array'},
@@ -91,6 +103,8 @@ BOUNDS = {
                  'start menu': 3,
                  'nnls grid family': 'all sets of 3 and of 4 RDMs (4 conditions, grid {0,1,2}) x fills x methods, '
                                      'every 10th set of 5, 5 conditions (105 RDMs): every 8th triple',
+                 'scale family': 'as quick, 3 problems x every index multiset of the quick plan',
+                 'pattern descriptors': "'index', unsorted two-digit ints, six-digit ints 100000+j not ascending",
                  'sequences on one model object': 'ordered pairs (triples for the weighted model, n_cond=4), '
                                                   'k 2-3, n_cond 4-5'},
 }
